@@ -134,6 +134,15 @@ func (r *Run) Broken(msg string) {
 // known_findings.json lists it as known for this property it is reported as KNOWN-FINDING.
 // recheck (optional) re-executes the case on fresh instances; it must reproduce 5 times.
 func (r *Run) Violate(class, finding, msg string, detail any, recheck func() bool) {
+	r.ViolateH(class, finding, msg, detail, recheck, nil)
+}
+
+// ViolateH is Violate with a second way to reproduce: if the case does not reproduce on a fresh
+// instance alone, histRecheck replays the whole history that preceded it on a fresh instance
+// (containers are reused across the requests of a sweep, so a state-dependent wrong answer is
+// still a violation of the property - it only needs its history as witness). onHistory lets the
+// caller mark the stored detail.
+func (r *Run) ViolateH(class, finding, msg string, detail any, recheck func() bool, histRecheck func() bool) {
 	r.mu.Lock()
 	if finding != "" {
 		if _, ok := r.known[finding]; ok {
@@ -154,10 +163,22 @@ func (r *Run) Violate(class, finding, msg string, detail any, recheck func() boo
 	}
 	if recheck != nil {
 		for i := 0; i < 5; i++ {
-			if !recheck() {
-				r.Broken(fmt.Sprintf("HARNESS-NONDETERMINISM: violation %q did not reproduce on re-run %d: %s", class, i+1, msg))
-				return
+			if recheck() {
+				continue
 			}
+			if i == 0 && histRecheck != nil {
+				ok := true
+				for j := 0; j < 5 && ok; j++ {
+					ok = histRecheck()
+				}
+				if ok {
+					class += "(needs-its-history)"
+					msg += " [does not reproduce on a fresh container alone; reproduces 5/5 when the requests served before it on the same container are replayed]"
+					break
+				}
+			}
+			r.Broken(fmt.Sprintf("HARNESS-NONDETERMINISM: violation %q did not reproduce on re-run %d (neither alone nor with its history; cross-request interference inside the package would look like this - see C19/C12): %s", class, i+1, msg))
+			return
 		}
 	}
 	r.mu.Lock()
